@@ -900,6 +900,12 @@ func init() {
 					Tweak: func(s *pgen.Spec) {
 						s.PMissingFile = 12
 						s.PNull = 8
+						if i%5 == 3 {
+							// keys of run-time typed maps (they become file / directory names
+							// under outs/ and JSON object keys of the rewritten _outs) with
+							// characters that are legal in both but need care when quoted
+							s.KeyPool = append(append([]string{}, s.KeyPool...), "e\x1b[1mA", "d\x7f", "bel\a", "vt\v", "q\"uote", "back\\slash", "\U000e0001tag", "nl\nx")
+						}
 						if big || i%4 == 2 {
 							s.NestFilesPct = 40
 						}
